@@ -35,6 +35,18 @@ def stable(name):
     return name
 
 
+SITE_HEADS = {'pre', 'nil-fieldaddr', 'index', 'nil-func', 'access', 'typeassert', 'nil-load', 'nil-store', 'shift-count', 'atomic',
+              'callback', 'lock', 'unlock', 'makeslice', 'call', 'store', 'div-zero', 'nil-atomic-load', 'nil-atomic-store',
+              'condwait', 'NewTicker-positive', 'panic', 'slice', 'nil-call', 'reentry'}
+
+
+def site_derived(stable_name):
+    parts = stable_name.split('/', 2)
+    if len(parts) < 3:
+        return False
+    return re.split(r'[.@]', parts[2])[0] in SITE_HEADS
+
+
 _EXCACHE = {}
 
 
@@ -191,7 +203,7 @@ def phase3(job):
     try:
         ex, spec, con = get_ex(target, mode, tier)
         obls = [o for o in ex.obls if o.name == name][:1]
-        res = verify.discharge(obls, timeout)
+        res = verify.discharge(obls, timeout, hints=_G.get('hints'))
         out = []
         for o, r in zip(obls, res):
             out.append({'name': r.name, 'stable': stable(r.name), 'tags': r.tags, 'status': r.status, 'time': round(r.time, 4),
@@ -297,8 +309,11 @@ def main():
         if retry:
             jobs3 = []
             for (t, m, nm) in retry:
-                jobs3.append((t, m, timeout * 3, a.tier, nm))
-            outs3 = pool.map(phase3, jobs3[:40], chunksize=1)
+                jobs3.append((t, m, timeout * 4, a.tier, nm))
+            # few at a time: the first pass ran with every core busy, which is what made these time out
+            outs3 = []
+            with ctx.Pool(4) as pool3:
+                outs3 = pool3.map(phase3, jobs3[:60], chunksize=1)
             fixed = {}
             for o3 in outs3:
                 for r in o3['results']:
@@ -387,6 +402,10 @@ def main():
     if base and not engine_errors:
         for s in sorted(base - set(by_stable)):
             if any(('/' + fnn + '/') in s for fnn in err_fns):
+                continue
+            if site_derived(s):
+                # generated by a program point (a call's precondition, a dereference, an access, a lock operation):
+                # when the code no longer has that point there is nothing left to prove
                 continue
             violations.append({'stable': s, 'status': 'missing', 'fn': s.split('/')[1] if '/' in s else '',
                                'reason': 'obligation of the committed baseline is no longer generated (contract clause or function binding lost)',
